@@ -13,7 +13,7 @@ _whole.install(globals(), "C06",
                     "inactive one, or skips an LSC/GSC verdict) + per-step monitors on the real run (stop causes, frozen histories, started_at).",
                note="'stops exactly when LSC/GSC/engine says so' is the machine's transition relation (accepted traces only) and is measured by the monitor; the contents of histories are C02/C11.",
                technique="Coq invariants (exactly-once scheduling, frozen inactive demes) over all event streams + vm_compute trace replay against the real package",
-               front_ends=["driver", "stops"], quick=240, thorough=6000, nontrivial=nontrivial,
+               front_ends=["driver", "stops", "ctor"], quick=240, thorough=6000, nontrivial=nontrivial,
                forces=[(4, None), (1, {"height": 2, "engines": ["SEA", "Local"], "objective_kind": "zero", "levels_patch": [{}, {"method": "L-BFGS-B"}]}),
                        (1, {"height": 2, "engines": ["DE", "Local"], "objective_kind": "plateau", "levels_patch": [{}, {"method": "L-BFGS-B"}]}),
                        (1, {"height": 3, "hibernation": True}), (1, {"height": 2, "engines": ["SHADE", "SHADE"]})])
